@@ -9,19 +9,25 @@
 (* the tables; MonCert.tla evaluates Expected on what the real hub did.     *)
 (***************************************************************************)
 EXTENDS Naturals, Sequences, FiniteSets, TLC, Json
-SkiLens == {"absent", "l1", "l19", "l20", "l21", "l40"}
+CONSTANT FullLens                               \* TRUE: every SKI length meets every binding / TLS version / sub-protocol offer
+SkiLens == 0..40 \cup {64}                       \* bytes in the Subject Key Identifier extension; 0 = no such extension
+Corner == {0, 1, 19, 20, 21, 32, 40}
 Bindings == {"ownKey", "copied", "random"}     \* SHA-1 of the certificate's own key / the SKI of another device / arbitrary bytes
 TlsVersions == {10, 11, 12, 13}
 SubProtos == {"none", "ship", "other", "otherShip"}
 Inbound == { [dir |-> "in", cert |-> c, skiLen |-> l, binding |-> b, tls |-> t, sub |-> s] :
                c \in BOOLEAN, l \in SkiLens, b \in Bindings, t \in TlsVersions, s \in SubProtos }
-ValidIn(r) == (~r.cert => (r.skiLen = "absent" /\ r.binding = "ownKey"))
-              /\ (r.skiLen = "absent" => r.binding = "ownKey")
+ValidIn(r) == (~r.cert => (r.skiLen = 0 /\ r.binding = "ownKey"))
+              /\ (r.skiLen = 0 => r.binding = "ownKey")
+              /\ ((~FullLens /\ r.skiLen \notin Corner) => (r.binding = "ownKey" /\ r.tls >= 12 /\ r.sub = "ship"))
 \* the requirement
-AcceptIn(r) == r.cert /\ r.skiLen = "l20" /\ r.binding = "ownKey" /\ r.tls >= 12 /\ r.sub \in {"ship", "otherShip"}
+AcceptIn(r) == r.cert /\ r.skiLen = 20 /\ r.binding = "ownKey" /\ r.tls >= 12 /\ r.sub \in {"ship", "otherShip"}
 
-Presented == {"same", "sameSkiOtherKey", "other", "absent", "l19", "l21"}
-Outbound == { [dir |-> "out", presented |-> p] : p \in Presented }
+\* what the dialled server presents: the dialled device's certificate; another key with the dialled SKI written into it; another
+\* device's certificate; no SKI; "ownLen": a certificate whose SKI has n # 20 bytes, and exactly that SKI (2n hex digits) was dialled
+Presented == {"same", "sameSkiOtherKey", "other", "absent", "ownLen"}
+Outbound == { [dir |-> "out", presented |-> p, len |-> n] : p \in Presented, n \in SkiLens }
+ValidOut(r) == IF r.presented = "ownLen" THEN r.len \notin {0, 20} /\ (FullLens \/ r.len \in Corner) ELSE r.len = 20
 AcceptOut(r) == r.presented = "same"
 
 Subjects == {"plain", "empty", "utf8", "long", "special"}
@@ -31,13 +37,13 @@ Generator == { [dir |-> "gen", subject |-> s] : s \in Subjects }
 Judge(r, res) ==
     CASE r.dir = "in" ->
            (IF ~AcceptIn(r) /\ (res.accepted \/ res.shipSeen)
-            THEN {<<"C02", "inbound-not-refused", IF r.cert /\ r.skiLen = "l20" /\ r.binding # "ownKey" /\ r.tls >= 12 /\ r.sub \in {"ship", "otherShip"}
+            THEN {<<"C02", "inbound-not-refused", IF r.cert /\ r.skiLen = 20 /\ r.binding # "ownKey" /\ r.tls >= 12 /\ r.sub \in {"ship", "otherShip"}
                                                   THEN "ski-not-bound-to-key" ELSE "gate", r.skiLen, r.binding, r.tls, r.sub>>} ELSE {})
            \cup (IF AcceptIn(r) /\ ~res.shipSeen THEN {<<"C02", "genuine-peer-refused", r.tls, r.sub>>} ELSE {})
            \cup (IF AcceptIn(r) /\ res.shipSeen /\ res.attributed # res.certSki THEN {<<"C02", "attributed-to-wrong-ski">>} ELSE {})
       [] r.dir = "out" ->
            (IF ~AcceptOut(r) /\ res.shipSeen
-            THEN {<<"C02", "outbound-ship-started", IF r.presented = "sameSkiOtherKey" THEN "ski-not-bound-to-key" ELSE "gate", r.presented>>} ELSE {})
+            THEN {<<"C02", "outbound-ship-started", IF r.presented = "sameSkiOtherKey" THEN "ski-not-bound-to-key" ELSE "gate", r.presented, r.len>>} ELSE {})
            \cup (IF AcceptOut(r) /\ ~res.shipSeen THEN {<<"C02", "genuine-server-refused">>} ELSE {})
       [] r.dir = "gen" ->
            (IF ~(res.skiIs40LowerHex /\ res.skiIsSha1OfKey /\ res.passesGate) THEN {<<"C02", "generated-certificate-wrong", r.subject>>} ELSE {})
